@@ -126,12 +126,14 @@ PROPS = {
             "level table of the property statement (R-PRECMATRIX, 43 cells); rule <-> AST class field agreement "
             "(R-ASTFIELDS); semantic actions name existing rules and produce the literal's Python type (R-SEMANTICS); no "
             "earlier terminal alternative of an ordered choice captures a prefix of a later one, by NFA product on the "
-            "rules' regexes (R-SHADOW); clause openers reserved (R-KEYWORDS); literal forms by language membership "
-            "(R-LEXSPEC, thorough). Does not decide the behaviour of TatSu's run-time, hence not the round trip itself."),
+            "rules' regexes (R-SHADOW); clause openers reserved (R-KEYWORDS); every lexical class (comments, identifiers, "
+            "strings, integers, decimals, dates) denotes exactly the language of its reference definition, decided by "
+            "equivalence of the two finite automata, and the comment patterns copied into the generated parser equal the "
+            "grammar's (R-LEXLANG); literal forms by language membership (R-LEXSPEC, thorough). Does not decide the behaviour of TatSu's run-time, hence not the round trip itself."),
         'assumptions': ["TatSu's code generator (5.7.x, the version range pyproject.toml pins) is deterministic and "
                         "faithful to its input grammar", "no BQL text is parsed by the check"],
         'technique': 'translation validation (regenerate and compare syntax trees) + grammar-model analysis',
-        'quick': [gr.rule_regen, gr.rule_precmatrix, gr.rule_astfields, gr.rule_semantics, gr.rule_shadow, gr.rule_keywords],
+        'quick': [gr.rule_regen, gr.rule_precmatrix, gr.rule_astfields, gr.rule_semantics, gr.rule_shadow, gr.rule_keywords, gr.rule_lexlang],
         'thorough': [gr.rule_lexspec],
     },
     'C07': {
@@ -295,7 +297,7 @@ PROPS = {
             "decided: balance preservation, carried-forward Equity postings, balancing of returned transactions - "
             "properties of beancount.ops.summarize over ledger values."),
         'assumptions': TRUSTED_STRUCT,
-        'quick': [cl.rule_callorder, executor.rule_fromand, cr.rule_guards, cr.rule_guard_typesafe, st.rule_tablecopy,
+        'quick': [cl.rule_callorder, executor.rule_fromand, sxk.rule_fromclause, cr.rule_guards, cr.rule_guard_typesafe, st.rule_tablecopy,
                   cl.rule_defaultclose],
         'thorough': [],
     },
